@@ -176,6 +176,18 @@ def units_asm():
     return out
 
 
+def units_asm_qualified():
+    """assembly that refers to Go names of its own package through the full import path (underscore and digit in the path)."""
+    ip = PKGS["us"][0].replace(".", "\u00b7").replace("/", "\u2215")
+    go = "func QAdd@(x, y int64) int64\n\nfunc QVia@(x, y int64) int64\n\nfunc qHelper@(x int64) int64 { return x * 7 }\n\nfunc QCalls@(x int64) int64\n\nvar qVar@ int64 = 9\n\nfunc QVar@() int64\n"
+    asm = ('#include "textflag.h"\n\nTEXT \u00b7QAdd@(SB),NOSPLIT,$0-24\n\tMOVQ x+0(FP), AX\n\tADDQ y+8(FP), AX\n\tMOVQ AX, ret+16(FP)\n\tRET\n\n'
+           "TEXT \u00b7QVia@(SB),NOSPLIT,$0-24\n\tJMP %s\u00b7QAdd@(SB)\n\n"
+           "TEXT \u00b7QCalls@(SB),$16-16\n\tMOVQ x+0(FP), AX\n\tMOVQ AX, 0(SP)\n\tCALL %s\u00b7qHelper@(SB)\n\tMOVQ 8(SP), AX\n\tMOVQ AX, ret+8(FP)\n\tRET\n\n"
+           "TEXT \u00b7QVar@(SB),NOSPLIT,$0-8\n\tMOVQ %s\u00b7qVar@(SB), AX\n\tMOVQ AX, ret+0(FP)\n\tRET\n" % (ip, ip, ip))
+    return [Unit("assembly with import-path qualified names (underscore in path)", "\tfmt.Println(under_score2.QAdd@(1, 2), under_score2.QVia@(3, 4), under_score2.QCalls@(5), under_score2.QVar@())\n",
+                 pkgs={"us": go}, files={"lib/under_score2/qasm@_amd64.s": asm}, tags={"asm"})]
+
+
 def units_linkname():
     out = []
     # bodyless declarations need a .s file in the package
@@ -199,4 +211,4 @@ def units_linkname():
 
 
 def all_units():
-    return (units_structs() + units_alias() + units_generics() + units_interfaces() + units_control() + units_imports() + units_asm() + units_linkname())
+    return (units_structs() + units_alias() + units_generics() + units_interfaces() + units_control() + units_imports() + units_asm() + units_asm_qualified() + units_linkname())
